@@ -2,4 +2,5 @@
 import PyXABModel.Model.Box
 import PyXABModel.Model.Partition
 import PyXABModel.Model.FloatInst
+import PyXABModel.Model.TreeBandit
 import PyXABModel.Drv.Main
